@@ -1,6 +1,6 @@
 use super::{
     Namespace, TryFromNode,
-    doc::RustDocument,
+    doc::{ComponentKind, RustDocument},
     structures::{element::ElementType, xml_name_to_rust_name},
 };
 use crate::{
@@ -101,7 +101,12 @@ impl<'n> TryFromNode<'n> for Field {
                 .and_then(|ns| doc.find_namespace_by_abbreviation(ns))
                 .cloned();
 
-            let ref_node = doc.find_node_by_xml_name(&node, xml_name, namespace.as_deref());
+            let kind = match node.tag_name().name() {
+                "element" => ComponentKind::Element,
+                "group" => ComponentKind::Type,
+                _ => ComponentKind::Other,
+            };
+            let ref_node = doc.find_node_by_xml_name(&node, xml_name, namespace.as_deref(), kind);
             let ref_node = ref_node
                 .as_ref()
                 .ok_or_else(|| WriterError::NodeNotFound(ref_name.to_string()))?;
